@@ -78,7 +78,7 @@ def run_tlc(module, cfg, workdir=None, workers=None, timeout=1800, env=None,
     if not os.path.isdir(specdir):
         shutil.copytree(SPEC, specdir)
     meta = tempfile.mkdtemp(prefix="meta-", dir=wd)
-    cmd = ["java", "-XX:+UseParallelGC", "-Xmx8g", "-Xss64m"]
+    cmd = ["java", "-Xmx12g", "-Xss64m"]
     if dfs:
         cmd.append("-Dtlc2.tool.queue.IStateQueue=StateDeque")
     cmd += ["-cp", TLA_CP, "tlc2.TLC",
@@ -355,6 +355,55 @@ class Report:
               f"{self.cov['canaries_tried']} violations="
               f"{len(self.violations)} wall={wall:.1f}s")
         return 1 if self.violations else 0
+
+
+def crash_in_code_under_test(tb):
+    """An unexpected exception ended the check.  If the innermost frame that
+    belongs to either the harness or emg3d (library frames below it are
+    skipped) is an emg3d frame, the implementation raised on an input the
+    harness considers valid; returns "<file>:<line> <exception line>" then,
+    else None (the harness itself failed).  Tracebacks of pool workers arrive
+    as text (RemoteTraceback) and are part of `tb`."""
+    import emg3d
+    edir = os.path.dirname(os.path.abspath(emg3d.__file__)) + os.sep
+    # the remote traceback (if any) is the innermost one
+    m = re.search(r'"""\n(Traceback.*?)"""', tb, re.S)
+    text = m.group(1) if m else tb
+    frames = re.findall(r'File "([^"]+)", line (\d+)', text)
+    mine = [(f, ln) for f, ln in frames
+            if f.startswith(edir) or f.startswith(VERIF + os.sep)]
+    if not mine or not mine[-1][0].startswith(edir):
+        return None
+    exc = [ln for ln in text.strip().splitlines() if ln and ln[0] != " "]
+    return f"{os.path.relpath(mine[-1][0], edir)}:{mine[-1][1]} " \
+           f"{exc[-1][:200] if exc else ''}"
+
+
+def report_crash(pid, tier, crash, tb):
+    key = f"{pid}:crash:{crash}"
+    for f in load_known_findings().get("findings", []):
+        if f["property"] == pid and re.search(f["match"], key):
+            print(f"KNOWN-FINDING: property={pid} {f['what']}")
+            return 2          # nothing else was checked: not a pass
+    os.makedirs(REPLAYS, exist_ok=True)
+    path = os.path.join(REPLAYS, f"{pid}-{seed()}-crash.json")
+    with open(path, "w") as f:
+        json.dump({"property": pid, "key": key, "seed": seed(),
+                   "text": "emg3d raised an unexpected exception on an input "
+                           "of the check", "traceback": tb}, f, indent=1)
+    ev = {"property_id": pid, "tier": tier, "seed": seed(), "level": "other",
+          "coverage": {"evaluations": 1, "distinct_nontrivial": 1,
+                       "rule": "the run ended at the first input on which "
+                               "the implementation raised",
+                       "samples": [key], "explanation": tb[-1500:]},
+          "assumptions": [], "wall_s": 0.0, "violations": 1}
+    os.makedirs(EVID, exist_ok=True)
+    with open(os.path.join(EVID, f"{pid}.json"), "w") as f:
+        json.dump(ev, f, indent=1)
+    print(f"VIOLATION property={pid} replay={path}")
+    print(f"  {key}: emg3d raised an unexpected exception on an input the "
+          f"check considers valid")
+    return 1
 
 
 def expect_tlc_ok(rep, name, res, key_prefix, kind="exhaustive"):
